@@ -54,6 +54,7 @@ def r1(rr, repo):
     span = (max(offs) + 1) if offs else None
     default = q.module_consts(smod).get('TCP_DEFAULT_PORT')
     cmod, pf = repo.find(f'{CLI}::parse_filters')
+    q.expect_locals(cmod, pf, ['outputs', 'output', 'sources', 'source', 'max_port', 'id', 'config_by_id', 'source_by_id'])
     # allocation step
     steps = []
     for n in ast.walk(pf):
@@ -111,6 +112,7 @@ def _stmt_list(st):
 @rule('C12.R2', 'suffix preservation: a rewritten source is <resolved address> + source[len(id):] with id = only_mq_addr(source), so ;topic, !opt, ?/?? survive')
 def r2(rr, repo):
     cmod, pf = repo.find(f'{CLI}::parse_filters')
+    q.expect_locals(cmod, pf, ['sources', 'source', 'id'])
     rewrites = [n for n in walk_scope(pf) if isinstance(n, ast.Assign) and any(isinstance(t, ast.Subscript) and U(t.value) == 'sources' for t in n.targets)]
     rr.floor('source rewrite sites', len(rewrites), 2, cmod, pf)
     idbind = [n for n in ast.walk(pf) if isinstance(n, ast.NamedExpr) and isinstance(n.value, ast.Call) and U(n.value.func) == 'only_mq_addr']
